@@ -1,0 +1,82 @@
+//go:build verif
+
+// Contracts for the store use case (Set / Get / GetKeys / Delete), read by /verif/govc.
+// The five repositories are seen through this package's interfaces; their contracts
+// speak about the ghost object `world` (registry and durable state views).
+package store
+
+//@ pure func depsOk(u *UseCase) bool =
+//@     u != nil && u.dir != nil && u.cRepo != nil && u.cfRepo != nil && u.fRepo != nil && u.txRepo != nil && u.idGen != nil
+
+// ---- interfaces ----
+
+//@ iface txRepository.Get
+//@   params ctx, id
+//@   ensures ok:    result1 == nil <==> txKnown(id)
+//@   ensures class: result1 != nil ==> is(result1, fs_db.ErrTxNotFound)
+//@   ensures tx:    result1 == nil ==> result0.Id == id &&
+//@                     result0.IsoLevel == ite(id == model.MainTxId, fs_db.IsoLevelDefault, world.level[id]) &&
+//@                     (id != model.MainTxId ==> result0.Seq == world.begin[id])
+
+//@ iface fileRepository.Get
+//@   params ctx, txId, key, filter
+//@ iface fileRepository.GetFiles
+//@   params ctx, txId, filter
+//@   ensures distinct: result1 == nil ==> forall i, j int :: 0 <= i && i < j && j < len(result0) ==> result0[i].Key != result0[j].Key
+//@ iface fileRepository.Store
+//@   params ctx, file
+//@ iface contentFileRepository.Get
+//@   params ctx, id
+//@   ensures found:   result1 == nil ==> world.hasCRec[id] && result0.Id == id && result0.Parent == world.cParent[id]
+//@   ensures missing: is(result1, fs_db.ErrNotFound) ==> result1 != nil && !world.hasCRec[id]
+//@   ensures norec:   !world.hasCRec[id] ==> result1 != nil
+//@ iface contentFileRepository.Store
+//@   params ctx, file
+//@ iface contentRepository.Get
+//@   params ctx, path
+//@ iface contentRepository.Store
+//@   params ctx, path, content
+//@ iface dirUsecase.Get
+//@   params ctx
+//@ iface generator.Generate
+//@   ensures fresh: uuidCanonical(result) && !world.hasCRec[result] && !world.hasRec[result]
+
+// ---- Get: which versions a reader at each isolation level is shown ----
+// ReadUncommitted: no filter (latest write by anyone); ReadCommitted and autocommit: own
+// transaction merged with the main transaction; RepeatableRead/Serializable: own transaction
+// merged with the main transaction as of the transaction's begin sequence.
+//@ func (*UseCase).Get
+//@   requires deps:      depsOk(u)
+//@   ensures  finished:  !txKnown(ctxTxId(ctx)) ==> result1 != nil && is(result1, fs_db.ErrTxNotFound)
+//@   exitassert ru:      tx.IsoLevel == fs_db.IsoLevelReadUncommitted ==> filter.TxId == nil && filter.BeforeSeq == nil
+//@   exitassert rc:      tx.IsoLevel == fs_db.IsoLevelReadCommitted ==> filter.TxId != nil && *filter.TxId == model.MainTxId && filter.BeforeSeq == nil
+//@   exitassert rr:      (tx.IsoLevel == fs_db.IsoLevelRepeatableRead || tx.IsoLevel == fs_db.IsoLevelSerializable) ==>
+//@                          filter.TxId != nil && *filter.TxId == model.MainTxId && filter.BeforeSeq != nil && *filter.BeforeSeq == tx.Seq
+//@   exitassert own:     result1 == nil ==> tx.Id == ctxTxId(ctx)
+
+// ---- GetKeys: sorted, duplicate-free, exactly the keys of the visible versions that have a content record ----
+//@ func (*UseCase).GetKeys
+//@   requires deps:      depsOk(u)
+//@   ensures  finished:  !txKnown(ctxTxId(ctx)) ==> result1 != nil && is(result1, fs_db.ErrTxNotFound)
+//@   ensures  sorted:    result1 == nil ==> forall i, j int :: 0 <= i && i < j && j < len(result0) ==> !strless(result0[j], result0[i])
+//@   exitassert ru:      tx.IsoLevel == fs_db.IsoLevelReadUncommitted ==> filter.TxId == nil && filter.BeforeSeq == nil
+//@   exitassert rc:      tx.IsoLevel == fs_db.IsoLevelReadCommitted ==> filter.TxId != nil && *filter.TxId == model.MainTxId && filter.BeforeSeq == nil
+//@   exitassert rr:      (tx.IsoLevel == fs_db.IsoLevelRepeatableRead || tx.IsoLevel == fs_db.IsoLevelSerializable) ==>
+//@                          filter.TxId != nil && *filter.TxId == model.MainTxId && filter.BeforeSeq != nil && *filter.BeforeSeq == tx.Seq
+//@   exitassert own:     result1 == nil ==> tx.Id == ctxTxId(ctx)
+//@   exitassert listed:  result1 == nil ==> forall m int :: 0 <= m && m < len(files) && world.hasCRec[files[m].ContentId] ==>
+//@                          exists j int :: 0 <= j && j < len(result0) && result0[j] == files[m].Key
+//@   exitassert only:    result1 == nil ==> forall j int :: 0 <= j && j < len(result0) ==>
+//@                          exists m int :: 0 <= m && m < len(files) && result0[j] == files[m].Key && world.hasCRec[files[m].ContentId]
+//@ loop (*UseCase).GetKeys#1
+//@   invariant idx:    -1 <= rangeindex && rangeindex + 1 <= len(files) && len(keys) <= rangeindex + 1
+//@   invariant listed: forall m int :: 0 <= m && m <= rangeindex && world.hasCRec[files[m].ContentId] ==>
+//@                        exists j int :: 0 <= j && j < len(keys) && keys[j] == files[m].Key
+//@   invariant only:   forall j int :: 0 <= j && j < len(keys) ==>
+//@                        exists m int :: 0 <= m && m <= rangeindex && keys[j] == files[m].Key && world.hasCRec[files[m].ContentId]
+//@   decreases len(files) - rangeindex
+
+// ---- Delete: a tombstone version (fresh content id without a content record) in the caller's transaction ----
+//@ func (*UseCase).Delete
+//@   requires deps:      depsOk(u)
+//@   ensures  finished_tx_rejected: !txKnown(ctxTxId(ctx)) ==> result != nil && is(result, fs_db.ErrTxNotFound)
